@@ -290,7 +290,16 @@ func AddDecoys(r *rand.Rand, parts []cfg.Config) {
 		}
 		for _, kv := range src.Params {
 			if !hasKV(dst.Params, kv.K) && r.Intn(3) == 0 {
-				dst.Params = append(dst.Params, cfg.KV{K: kv.K, V: cfg.Str("decoy value")})
+				v := cfg.Str("decoy value")
+				switch r.Intn(6) {
+				case 0:
+					v = cfg.Raw("[not, a, primitive]") // invalid on its own; the later file replaces it
+				case 1:
+					v = cfg.Str("%unclosed")
+				case 2:
+					v = cfg.Raw("{a: {b: 1}}")
+				}
+				dst.Params = append(dst.Params, cfg.KV{K: kv.K, V: v})
 			}
 		}
 		for _, s := range src.Services {
